@@ -219,7 +219,7 @@ def parse_out(path):
     return recs
 
 
-def run_shard(binpath, config, seed, a, b, tier, workdir, timeout, variant):
+def run_shard(binpath, config, seed, a, b, tier, workdir, timeout, variant, unit_name=""):
     """Runs cases [a,b) of a config, restarting after crashes.  Returns dict with summaries & violations."""
     res = {"cases": 0, "counters": {}, "nontrivial": set(), "nontrivial_count": 0, "samples": [], "viol": [],
            "restarts": 0, "hang": None, "wall": 0.0}
@@ -230,7 +230,7 @@ def run_shard(binpath, config, seed, a, b, tier, workdir, timeout, variant):
     attempt = 0
     while cur < b:
         attempt += 1
-        out = os.path.join(workdir, "%s.%d.%d.%d.jsonl" % (config, a, cur, attempt))
+        out = os.path.join(workdir, "%s.%s.%d.%d.%d.jsonl" % (unit_name, config, a, cur, attempt))
         err = out + ".stderr"
         for p in (out, err):
             if os.path.exists(p):
@@ -367,7 +367,7 @@ def run_check(prop, tier, seed, replay=None, only_unit=None, only_config=None, s
     t_run = time.time()
     with cf.ThreadPoolExecutor(max_workers=JOBS) as ex:
         futs = {ex.submit(run_shard, unit_bin(spec, u), cfg, seed, a, b, tier, workdir, timeout,
-                          u.get("variant", "asan")): (u, cfg, a, b) for (u, cfg, a, b) in shards}
+                          u.get("variant", "asan"), u["name"]): (u, cfg, a, b) for (u, cfg, a, b) in shards}
         for f in cf.as_completed(futs):
             u, cfg, a, b = futs[f]
             r = f.result()
